@@ -33,6 +33,9 @@ type sockArgs struct {
 	// how the accepting side ends a connection once it has read end-of-stream: "both" (Close + CloseConnection) or
 	// "close" (Close only, as the control service does with its connections)
 	ServerClose string `json:"server_close"`
+	// a second stream listener is closed by the application at the end of the script: "idle" (no connection),
+	// "live" (a connection dialled to it is still open), "" (no second listener)
+	ListenerClose string `json:"listener_close"`
 }
 
 func sockGoroutines() int {
@@ -264,6 +267,46 @@ func sockApply(op string, raw json.RawMessage) interface{} {
 			pcancel()
 		}
 	}
+	if a.ListenerClose != "" {
+		li2, err := s.Listen("echo2", nil)
+		if err != nil {
+			errs = append(errs, "listen echo2: "+err.Error())
+		} else {
+			go func() {
+				for {
+					c, err := li2.Accept()
+					if err != nil {
+						if strings.Contains(err.Error(), "listener closed") || s.context.Err() != nil {
+							return
+						}
+						continue
+					}
+					go func() {
+						_, _ = io.Copy(io.Discard, c)
+						_ = c.Close()
+						if cc, ok := c.(*Conn); ok {
+							_ = cc.CloseConnection()
+						}
+					}()
+				}
+			}()
+			var c2 *Conn
+			if a.ListenerClose == "live" {
+				if c, err := s.Dial("sockme", "echo2", nil); err == nil {
+					_, _ = c.Write([]byte("still here"))
+					c2 = c
+					time.Sleep(30 * time.Millisecond)
+				}
+			}
+			if !verifTimed(8*time.Second, func() { _ = li2.Close() }) {
+				errs = append(errs, "closing a stream listener ("+a.ListenerClose+" connection) did not return")
+			}
+			if c2 != nil {
+				_ = c2.Close()
+				_ = c2.CloseConnection()
+			}
+		}
+	}
 	res := map[string]interface{}{"errs": errs}
 	if a.Shutdown {
 		// Shutdown closes the node's listeners itself (closing `li` here as well can dead-lock inside the
@@ -390,6 +433,7 @@ func sockGen(v *verifRun) {
 			}
 		}
 		a.Shutdown = v.rng.Intn(6) == 0
+		a.ListenerClose = []string{"", "", "", "idle", "live"}[v.rng.Intn(5)]
 		a.ServerClose = []string{"both", "close"}[v.rng.Intn(2)]
 		v.do(sockApply, "script", a)
 	}
